@@ -36,7 +36,7 @@ def main():
     nw = 2 if quick else 3
     ck.bounds = {'identifier patterns': '<= %d bytes, %d-byte characters at most' % (N, W),
                  'tokeniser step': 'remaining input <= %d bytes, %d-byte characters at most' % (N, W),
-                 'tokeniser whole': '<= %d bytes' % nw,
+                 'tokeniser whole': '<= %d bytes' % nw, 'number literals': '<= %d decimal digits, both signs (whole tokeniser)' % (20 if quick else 24),
                  'yaml shapes (auxiliary, concrete)': '8 value shapes x 7 positions'}
     ck.assumptions = [
         'char predicates exact on ASCII, uninterpreted (consistent) above; to_lowercase exact on ASCII, arbitrary result otherwise',
@@ -47,7 +47,7 @@ def main():
     ]
     ck.functions |= {'identifier::<String as IdentifierParser>::into_identifier', 'tokeniser::<String as Tokeniser>::tokenise',
                      'tokeniser::consume_while', 'tokeniser::match_ahead', 'tokeniser closures'}
-    units = [('ident', N, W, 'plain'), ('tok-step', N, W), ('tok-whole', nw, min(W, 2)), ('shapes',)] + [('conditions', n) for n in range(0, (4 if quick else 5) + 1)]
+    units = [('ident', N, W, 'plain'), ('tok-step', N, W), ('tok-whole', nw, min(W, 2)), ('tok-digits', 20 if quick else 24), ('shapes',)] + [('conditions', n) for n in range(0, (4 if quick else 5) + 1)]
     ck.run_units(units, run_unit)
     ck.finish('symbolic execution of the textual layers over symbolic UTF-8 strings; every path must return Ok/Err')
 
@@ -186,6 +186,39 @@ def run_unit(ck, unit):
         ck.obligation('tok-whole:returns Ok|Err on every path', uni, b_or(*[r.cond() for r in panics]) if panics else False,
                       sample={'layer': 'tokenise (whole)', 'bytes<=': n, 'paths': len(results)})
         validate_tokens(ck, uni, s, results, br)
+        return
+    if kind == 'tok-digits':
+        # a number literal of up to D decimal digits (optionally negative): beyond the i64 range the tokeniser must
+        # answer Err, whatever way it turns digits into a number
+        _, D = unit
+        for sign in ('', '-'):
+            uni = engine.Universe()
+            ex = ck.new_engine(prog, uni=uni, summarise=('{closure#0}', '{closure#1}'))
+            models_chars.install(ex)
+            d = S.fresh('digits', D, uni.axioms, ascii_only=True, min_len=1)
+            for b in d.bytes:
+                uni.axioms.append(z3.And(z3.UGE(b, 0x30), z3.ULE(b, 0x39)))
+            s = S.SStr([z3.BitVecVal(c, 8) for c in sign.encode()] + list(d.bytes), d.length + len(sign), 'number')
+            fn = find_fn(prog, '::tokenise')
+            results = ex.explore(fn, [Ref(Cont([StrV(s)]), 0)])
+            for r in results:
+                ck.blocks |= r.blocks
+            panics = [r for r in results if r.kind == 'panic']
+
+            def on_sat(model, sign=sign, d=d):
+                first = S.model_bytes(model, d)
+                for digits in [first, b'9223372036854775808', b'99999999999999999999', b'18446744073709551616', b'9223372036854775807']:
+                    text = sign.encode() + digits
+                    n = br.call(cmd='tokenise', s=list(text))
+                    path = ck.write_replay('tok_digits_' + text.decode(), {'layer': 'tokenise', 'input': text.decode(), 'native': n,
+                                                                            'request': {'cmd': 'tokenise', 's': list(text)}})
+                    if 'panic' in n:
+                        ck.replays_ok += 1
+                        return ('violation', path, 'tokenise(%r) panics: %s' % (text.decode(), n['panic'][:160]))
+                return ('spurious', 'native tokenise does not panic on the model or on the boundary literals')
+            ck.obligation('tok-digits%s:returns Ok|Err on every path' % (' negative' if sign else ''), uni,
+                          b_or(*[r.cond() for r in panics]) if panics else False,
+                          sample={'layer': 'tokenise (number literal)', 'digits<=': D, 'paths': len(results)}, on_sat=on_sat)
         return
     if kind == 'shapes':
         shapes_sweep(ck, br)
